@@ -105,9 +105,14 @@ def load_source(work, arg, known_ns=None):
     if len(ref) != len(chunks):
         raise common.MachineryError("reference runs disagree on the message count for %s" % arg)
     ns = [key_to_ns(k) for k, _ in ref]
+    src = Source(arg, os.path.basename(arg), list(zip(ns, chunks)))
+    src.truth_mismatch = None
     if known_ns is not None and ns != known_ns:
-        raise common.MachineryError("instants of %s differ from the generator's: %s vs %s" % (arg, ns[:4], known_ns[:4]))
-    return Source(arg, os.path.basename(arg), list(zip(ns, chunks)))
+        # the datetime field of the reference run itself is not the instant written: report it, and go on with the generator's instants
+        src.truth_mismatch = (ns, known_ns)
+        if len(known_ns) == len(chunks):
+            src.msgs = list(zip(known_ns, chunks))
+    return src
 
 
 def expected_bytes(sources, opt):
@@ -163,8 +168,10 @@ def lattice(tier):
         yield {"file": f, "align": al, "tz": tz, "tz_min": tzmin, "dfmt": df, "psep": ps, "sep_arg": sa, "sepb": sb}
 
 
-def argv_of(opt, color, paths):
+def argv_of(opt, color, paths, blocksz=None):
     a = ["--color", color, "-t", "+00:00"]
+    if blocksz:
+        a += ["--blocksz", str(blocksz)]
     if opt["file"]:
         a.append(opt["file"])
     if opt["align"]:
@@ -199,6 +206,29 @@ def build_sets(work, tier):
     common.write_file(os.path.join(work, "s4", "the-widest-name-of-all-prints-nothing.log"), b"no timestamp in here\nnor here\n")
     common.write_file(os.path.join(work, "s4", "b.log"), gen.text_log([(E * 1000 + 1500, b"short")]))
     sets.append(("s4", ["long.log", "the-widest-name-of-all-prints-nothing.log", "b.log"], {}))
+    # S5: microsecond stamps; consecutive messages of one file inside the same millisecond (and the same microsecond),
+    #     another file's messages merged in between
+    us5 = [(1000, 100), (1000, 100), (1000, 101), (1000, 999), (1001, 0), (1001, 500), (2000, 0), (2000, 1)]
+    l5 = [gen.ts_iso_off(E * 1000 + ms_, 0, us=(ms_ % 1000) * 1000 + u) + b" u%d" % i for i, (ms_, u) in enumerate(us5)]
+    common.write_file(os.path.join(work, "s5", "micro.txt"), b"\n".join(l5) + b"\n")
+    l5b = [gen.ts_iso_off(E * 1000 + 1000, 330, us=u) + b" v%d" % i for i, u in enumerate([100, 100, 550])]
+    common.write_file(os.path.join(work, "s5", "m2.txt"), b"\n".join(l5b) + b"\n")
+    sets.append(("s5", ["micro.txt", "m2.txt"], {"micro.txt": [((E * 1000 + ms_) * 1000 + u) * 1000 for ms_, u in us5]}))
+    # S6: read with --blocksz 64: 65-byte lines, so the line start (and the end of the datetime) falls on every offset modulo 64
+    #     (the first line is short: a first message that does not fit block zero is C02/C12's known finding, judged there)
+    l6 = [gen.ts_iso_off(E * 1000 - 5, 0) + b" first"]
+    for i in range(66):
+        st = gen.ts_iso_off(E * 1000 + i * 7, 0)
+        l6.append(st + b" " + (b"%02d" % i) + b"x" * (64 - len(st) - 3))
+    assert all(len(x) == 64 for x in l6[1:])
+    common.write_file(os.path.join(work, "s6", "sweep.txt"), b"\n".join(l6) + b"\n")
+    l6b = []
+    for i in range(20):     # multi-line messages whose second line starts at varying offsets
+        st = gen.ts_iso_off(E * 1000 + i * 23 + 1, -210)
+        l6b.append(st + b" m%d" % i + b"y" * (i % 7))
+        l6b.append(b"  cont" + b"z" * (i * 3 % 11))
+    common.write_file(os.path.join(work, "s6", "ml.txt"), b"\n".join(l6b) + b"\n")
+    sets.append(("s6", ["sweep.txt", "ml.txt"], {}))
     # S2: journal + text; name widths 1 and 20
     import samples
     if samples.journal(os.path.join(work, "s2"), "u3", "j.journal"):
@@ -231,21 +261,28 @@ def run(tier, seed, build=True):
                 s = load_source(wd, p, known.get(p))
                 s.is_text = not (p.endswith(".wtmp") or p.endswith(".journal") or p.endswith(".evtx"))
                 sources.append(s)
+                if s.truth_mismatch:
+                    res.violation({"symptom": "datetime-field-differs-from-written-instant", "sources": sname},
+                                  "%s: -u -d %%Y%%m%%dT%%H%%M%%S%%.9f prints %s for messages written at %s (epoch ns)" % (p, s.truth_mismatch[0][:6], s.truth_mismatch[1][:6]),
+                                  {"engine": "E-CLI", "args": list(oracle.DEC_ARGS) + ["-t", "+00:00", p], "tree": sname, "expected_stdout": "", "note": "compare the datetime fields with the stamps in the file"})
             use = opts if sname != "s3" else opts[::7]
-            items = [(o, c) for o in use for c in ("never", "always")]
+            bszs = [None] if sname not in ("s5", "s6") else [None, 64]
+            if sname == "s6" and tier == "quick":
+                use = opts[::3]
+            items = [(o, c, b) for o in use for c in ("never", "always") for b in bszs]
 
             def one(it):
-                o, c = it
-                return it, common.run_s4(argv_of(o, c, paths), cwd=wd)
-            for (o, c), r in common.pmap(one, items):
+                o, c, b = it
+                return it, common.run_s4(argv_of(o, c, paths, b), cwd=wd)
+            for (o, c, bsz), r in common.pmap(one, items):
                 res.count()
                 exp = expected_bytes(sources, o)
                 got = r.out if c == "never" else ESC.sub(b"", r.out)
-                res.distinct((sname, o["file"], o["align"], o["tz"], o["dfmt"], o["psep"], o["sep_arg"]))
+                res.distinct((sname, bsz, o["file"], o["align"], o["tz"], o["dfmt"], o["psep"], o["sep_arg"]))
                 if r.timed_out or r.rc not in (0, 1) or got != exp:
                     # classify
                     feats = {"color": c, "file_field": o["file"] or "none", "align": o["align"], "has_dt": o["tz"] is not None or o["dfmt"] is not None,
-                             "sources": sname}
+                             "sources": sname, "blocksz": bsz or "default"}
                     if r.timed_out or r.rc not in (0, 1):
                         feats["symptom"] = "crash"
                     else:
@@ -263,8 +300,8 @@ def run(tier, seed, build=True):
                                     feats["wide_chars_in_names"] = any(dwidth(n) != len(n) for n in paths)
                                 break
                     res.violation(feats, "options %s: stdout differs from the reconstruction (first difference: got %r / expected %r)" % (
-                        " ".join(argv_of(o, c, paths)), _first_diff(got, exp)[0][:90], _first_diff(got, exp)[1][:90]),
-                        {"engine": "E-CLI", "args": argv_of(o, c, paths), "tree": sname, "expected_stdout": common.b64(exp), "strip_colour": c == "always"})
+                        " ".join(argv_of(o, c, paths, bsz)), _first_diff(got, exp)[0][:90], _first_diff(got, exp)[1][:90]),
+                        {"engine": "E-CLI", "args": argv_of(o, c, paths, bsz), "tree": sname, "expected_stdout": common.b64(exp), "strip_colour": c == "always"})
         res.sample({"argv": argv_of(opts[len(opts) // 3], "always", ["a.log", "sub/日本語のログ.log", "x.wtmp", "é.log"])})
         res.coverage["rule"] = ("complete product of {none,-n,-p} x {-w} x zone options x -d formats x --prepend-separator x --separator x --color {never,always} over source sets mixing "
                                 "multi-line text (last message without newline), accounting records, a journal (and an event log in the thorough tier), names of display width 1..20 incl. CJK; "
